@@ -27,7 +27,7 @@ theorem pre_alive (sched : Nat → Intf) (row0 : Row) (h0 : row0.alive = true) (
     NOTHING (the committed row is the interferers' row);
     the SUCCESS completion, atomically, on the row `rc` of its compare-and-swap, whose state is the
     state the RE-READ `r2` showed: neither paused nor finished (the guard repeated after
-    `expire_all`, repo patch 25, and the guard of `_succeed_workflow`, repo fix ce9b9520) and a valid
+    `expire_all`, repo fix 3b5c318a, and the guard of `_succeed_workflow`, repo fix ce9b9520) and a valid
     source of SUCCESS, i.e. RUNNING;
     the FORCE-FAIL of the exception handler, atomically, on the row `rh`, when the re-read showed
     a state that is neither paused, finished nor a valid source of SUCCESS (IDLE / DELAYED: states a
@@ -170,7 +170,7 @@ def startedWfStates : List Val := [.str "RUNNING", .str "PAUSED", .str "SUCCESS"
 
 /-- "exactly one of completer / stopper determines (state, output)": whatever commits in between
     (pause, stop, another completion check ...), the committed row is the interferers' row untouched,
-    or carries the completion's SUCCESS and output, installed at one instant.  Before repo patch 25 this
+    or carries the completion's SUCCESS and output, installed at one instant.  Before repo fix 3b5c318a this
     was FALSE (`cac_one_party_full_fails`: a pause committing between the stale guard and the re-read
     made set_state(SUCCESS) raise and the handler force-failed the PAUSED execution); with the guard
     repeated after `expire_all` it holds for every state a started execution can show. -/
